@@ -7,7 +7,45 @@ GOV_TB = ['translator reading of Validate/fieldInclusion/verify into GoV program
 VERIFY_DEPS = ['theories/Theory/VerifyFacts.v', 'theories/Theory/VerifyProps.v', 'theories/Theory/DLFacts.v', 'theories/Model/DL.v',
                'theories/Model/GoV.v', 'theories/Spec/Rules.v', 'gen/Tags.v', 'gen/Verify.v']
 
+READER_DEPS = ['theories/Model/Reader.v', 'theories/Theory/ReaderFacts.v', 'theories/Theory/DispatchFacts.v', 'gen/Reader.v', 'gen/Tags.v']
+READER_TB = ['translator reading of reader.go (dispatch table, shapes of read loop / splitter / constructors)',
+             'bufio.Scanner model (Model/Reader.v scan_one: sticky status, 64 KiB limit, buffer growth) tied by stream l4-reader',
+             'hand model of the splitter and of the re-split, tied by stream l4-reader (13k reads: chunkings, fault offsets, 64 KiB boundaries)']
+CODEC_DEPS = ['theories/Model/Layout.v', 'theories/Theory/ConvFacts.v', 'theories/Theory/CodecFacts.v', 'theories/Theory/CodecRoundTrip.v', 'theories/Theory/CodecTags.v', 'gen/Tags.v']
+
 PROPS = {
+    'C01': {
+        'props': ['theories/Props/C01.v'], 'deps': CODEC_DEPS,
+        'streams': ['l2-tags', 'l5-props'],
+        'trusted_base': ['translator reading of the 60 Parse/Format functions into step lists (translator/tags.go), tied by stream l2-tags (300k cases, zero disagreements)',
+                         'hand model of converters.go (Model/Converters.v)'],
+        'assumptions': COMMON_ASSUME + ['file-level composition (writer plan + reader) is exercised by stream l5-props on the implementation; the theorems are per tag',
+                                        '4 special tags ({1120} {1500} {3600} {8200}) and the validity-dependent minimum-length guards of 8 tags are covered by correspondence only'],
+    },
+    'C04': {
+        'props': ['theories/Props/C04.v'], 'deps': READER_DEPS + VERIFY_DEPS,
+        'streams': ['l4-reader'],
+        'trusted_base': READER_TB + GOV_TB + ['Spec/Faim.v faim_markers'],
+        'assumptions': COMMON_ASSUME,
+    },
+    'C08': {
+        'props': ['theories/Props/C08.v'], 'deps': READER_DEPS + ['theories/Theory/WriterFacts.v'],
+        'streams': ['l4-reader'],
+        'trusted_base': READER_TB + ['bufio.Writer: a short write surfaces as io.ErrShortWrite from Flush (modelled)'],
+        'assumptions': COMMON_ASSUME + ['OS-level behaviour appears only as: the source returned an error after k bytes / the destination accepted k bytes'],
+    },
+    'C09': {
+        'props': ['theories/Props/C09.v'], 'deps': READER_DEPS,
+        'streams': ['l5-props', 'l4-reader'],
+        'trusted_base': READER_TB,
+        'assumptions': COMMON_ASSUME + ['chunk and separator independence: no theorem yet; decided on the implementation by stream l5-props (every sample x chunk sizes x separators) and by model/implementation agreement under all chunkings in l4-reader'],
+    },
+    'C15': {
+        'props': ['theories/Props/C15.v'], 'deps': READER_DEPS,
+        'streams': ['l5-props', 'l4-reader'],
+        'trusted_base': READER_TB,
+        'assumptions': COMMON_ASSUME,
+    },
     'C05': {
         'props': ['theories/Props/C05.v'], 'deps': VERIF_DEPS if False else VERIFY_DEPS,
         'streams': ['l3-validate'],
